@@ -3,8 +3,8 @@ C10 - an existing target file is never modified unless append applies to it.
 
 BFS over command-line invocation sequences on one target path in a private directory:
 {--to_bin,--to_cas,--to_dsk} x {append, no append} x pre-existing target {absent, empty, cassette (1/2
-files), disk (blank/1 file), raw binary, arbitrary bytes (with/without an embedded 55 3C 00), cassette
->= 161,280 bytes} x {assembler.py prog.asm, file_util.py src.cas, file_util.py src.dsk}. Reference =
+files), disk (blank/1 file), raw binary, arbitrary bytes (with/without an embedded 55 3C 00), all-$00 /
+all-$55 / all-$FF bytes, cassette >= 161,280 bytes} x {assembler.py prog.asm, file_util.py src.cas, file_util.py src.dsk}. Reference =
 the save-gating model of the property; the kind of the target is decided by the independent parsers.
 """
 import itertools
@@ -25,7 +25,7 @@ PROG = ["        NAM PROG", "        ORG $0E00", "START   LDA #1", "        RTS"
 PROG_BYTES = bytes([0x86, 0x01, 0x39])
 SRC_FILE = c07.fspec("ML", 40, "SRCFILE", pat="ramp7", load=0x3000, exec_=0x3005)
 
-TARGETS = ["absent", "empty", "cas1", "cas2", "dskblank", "dsk1", "rawbin", "bytes", "bytes553c", "casbig"]
+TARGETS = ["absent", "empty", "cas1", "cas2", "dskblank", "dsk1", "rawbin", "bytes", "bytes553c", "casbig", "zeros", "all55", "allFF"]
 SWITCHES = ["bin", "cas", "dsk"]
 CLIS = ["asm", "fu.cas", "fu.dsk"]
 
@@ -54,6 +54,14 @@ def make_target(kind):
         return bytes([0x12, 0x12, 0x39])
     if kind == "bytes":
         return bytes((i * 37 + 11) & 0xFF for i in range(700)).replace(b"\x55\x3c", b"\x55\x3d")
+    if kind == "zeros":
+        return bytes(16)
+    if kind == "all55":
+        return b"\x55" * 300
+    if kind == "allFF":
+        return b"\xFF" * 40
+    if kind == "zeros161280":
+        return bytes(dskfs.IMAGE_SIZE)
     if kind == "bytes553c":
         return b"hello \x55\x3c\x00 world" + bytes(range(200))
     raise ValueError(kind)
